@@ -1,0 +1,16 @@
+//go:build verif
+
+package plenc
+
+import "github.com/philpearl/plenc/plenccodec"
+
+// VerifRegistry returns every codec currently published in the instance's
+// shared registry (read-only view for the verification harness in /verif).
+func (p *Plenc) VerifRegistry() []plenccodec.Codec {
+	var out []plenccodec.Codec
+	p.codecRegistry.codecRegistry.Range(func(_, v any) bool {
+		out = append(out, v.(plenccodec.Codec))
+		return true
+	})
+	return out
+}
